@@ -12,6 +12,7 @@ DRIVERS = [
     ("lcm_driver", "ExtractLcm.v", "lcm_model.ml", "lcm_driver.ml"),
     ("routing_driver", "ExtractRouting.v", "routing_model.ml", "routing_driver.ml"),
     ("tls_driver", "ExtractTls.v", "tls_model.ml", "tls_driver.ml"),
+    ("policy_driver", "ExtractPolicy.v", "policy_model.ml", "policy_driver.ml"),
     ("observer_driver", "ExtractObserver.v", "observer_model.ml", "observer_driver.ml"),
 ]
 GO_PKGS = ["proxy", "encryption"]
